@@ -1,16 +1,30 @@
 #!/bin/sh
 # Build the framework from files on disk only (offline): Lean models/proofs/drivers and the Rust harness.
-set -e
+# Only what the claimed checks (MANIFEST.json) need must build; anything else (work in progress) is best effort,
+# and every check rebuilds what it needs itself anyway.
 cd "$(dirname "$0")"
 export CARGO_NET_OFFLINE=true
 mkdir -p .build evidence findings
+claimed=$(python3 -c "import json; print(' '.join(c['property_id'] for c in json.load(open('MANIFEST.json'))['checks']))")
 cd lean
-targets="SteelVerif"
+need="SteelVerif"
+extra=""
 for d in SteelVerif/C*/Driver.lean; do
-  p=$(basename $(dirname $d) | tr 'A-Z' 'a-z')
-  targets="$targets ${p}driver"
+  P=$(basename $(dirname $d))
+  p=$(echo $P | tr 'A-Z' 'a-z')
+  case " $claimed " in
+    *" $P "*) need="$need ${p}driver" ;;
+    *) extra="$extra ${p}driver" ;;
+  esac
 done
-lake build $targets
+lake build $need || { echo "setup: lake build failed"; exit 1; }
+for t in $extra; do lake build $t >/dev/null 2>&1 || echo "setup: optional target $t does not build (work in progress)"; done
 cd ../harness
-cargo build --bins
+bins=""
+for P in $claimed; do
+  p=$(echo $P | tr 'A-Z' 'a-z')
+  [ -f src/bin/$p.rs ] && bins="$bins --bin $p"
+done
+cargo build --bin vh $bins || { echo "setup: cargo build failed"; exit 1; }
+cargo build --bins >/dev/null 2>&1 || echo "setup: some optional harness bins do not build (work in progress)"
 echo setup-ok
